@@ -193,7 +193,9 @@ def relay_side(ctx):
           dict(nd=1, maxq=1, mpm=1, flow=True, dynamic=False, nr=1, protocol='line'),        # low watermark 0.8 of one datapoint; plaintext client
           dict(nd=1, maxq=3, mpm=2, flow=True, dynamic=True, max_retries=1, nr=2),    # the only destination comes and goes
           dict(nd=2, maxq=4, mpm=10, flow=True, dynamic=True, max_retries=1, nr=1, wbuf=True),
-          dict(nd=3, maxq=3, mpm=2, flow=True, dynamic=True, max_retries=1, nr=2)]
+          dict(nd=3, maxq=3, mpm=2, flow=True, dynamic=True, max_retries=1, nr=2),
+          # proportions in which one batch takes a full queue to between the low watermark and MAX_QUEUE_SIZE
+          dict(nd=2, maxq=5, mpm=2, flow=True, dynamic=True, max_retries=1, nr=1)]
   if not ctx.quick:
     cfgs += [dict(nd=4, maxq=5, mpm=3, flow=True, dynamic=True, max_retries=2, nr=2, low_pct=0.5),
              dict(nd=2, maxq=10, mpm=4, flow=True, dynamic=False, nr=1, low_pct=0.2, hard_pct=2.0),
